@@ -366,9 +366,18 @@ def _control_thread(ex, fids, rw):
         if not pend:
             return
         if not cands:
-            if others:
-                ex.release(_choose(ex, "forced", others, [], ALL_COMPLETED))
+            with ex.cv:
+                finishing = [f for f in pend if f in ex.body_done]  # body returned, future about to be completed
+                unparked = [f for f in pend if f in ex.submitted and f not in ex.body_done]  # running without parking, or queued
+            if finishing:
+                time.sleep(0.0002)
                 continue
+            if unparked:
+                if others:
+                    ex.release(_choose(ex, "forced", others, [], ALL_COMPLETED))
+                    continue
+                # nothing is parked: the waited bodies (operator nodes, argument stubs, ...) complete on their own
+                return
             ev("DEADLOCK", token=ex.token, wkind="thread", futs=[ex.label(f) for f in fids])
             raise DeadlockDetected("thread wait on %r: nothing parked, running or queued" % (fids,))
         if rw == ALL_COMPLETED:
@@ -427,15 +436,19 @@ async def _control_async(ex, tasks, rw):
         if not pend:
             return
         if not cands:
-            # a released body whose completion has not reached its task yet?
             with ex.cv:
+                # a body whose completion has not reached its task yet / a body running without parking / a task not yet submitted
                 finishing = [f for f in fids if f in ex.body_done and not ex.tasks[ex.fut2task[f]].done()]
-            if finishing:
+                unparked = [f for f in fids if f not in ex.body_done]
+            unsubmitted = [t for t in pend if getattr(t, "_twz_tid", None) not in ex.task2fut]
+            if finishing or unsubmitted:
                 await asyncio.sleep(0)
                 continue
-            if others:
-                ex.release(_choose(ex, "forced", others, [], ALL_COMPLETED))
-                continue
+            if unparked:
+                if others:
+                    ex.release(_choose(ex, "forced", others, [], ALL_COMPLETED))
+                    continue
+                return
             ev("DEADLOCK", token=ex.token, wkind="async", futs=[ex.label(f) for f in fids])
             raise DeadlockDetected("async wait: nothing parked, running or queued")
         if rw == ALL_COMPLETED:
